@@ -256,3 +256,92 @@ def replay(prop, path, repo):
         print('[%s] %s' % ('release' if rel else 'debug', (p.stdout + p.stderr).strip()))
         if p.returncode == 1: rc = 1
     return rc
+
+
+# --------------------------------------------------------------------------------------------------
+# own process pool over single-harness invocations in the regular output format (gives per-cover results;
+# `cargo kani -j` only supports the terse format, which does not name the cover points)
+
+def parse_regular(out):
+    res = dict(status='unknown', failed_checks=[], checks=0, failed=0, unreachable=0, time_s=None, covers={}, playback=None)
+    lines = out.splitlines()
+    i = 0
+    while i < len(lines):
+        l = lines[i]
+        if l.startswith('Check ') and i + 2 < len(lines):
+            st = lines[i + 1].strip(); ds = lines[i + 2].strip()
+            loc = lines[i + 3].strip() if i + 3 < len(lines) and lines[i + 3].strip().startswith('- Location:') else ''
+            sm = re.match(r'- Status: (\w+)', st); dm = re.match(r'- Description: "(.*)"$', ds)
+            if sm and dm:
+                status, desc = sm.group(1), dm.group(1)
+                if '.cover.' in l:
+                    prev = res['covers'].get(desc)
+                    if status == 'SATISFIED' or prev is None: res['covers'][desc] = status
+                elif status == 'FAILURE':
+                    d2 = desc[1:-1] if len(desc) > 1 and desc.startswith('\\"') else desc
+                    res['failed_checks'].append((desc.strip('"\\'), loc.replace('- Location: ', '')))
+            i += 3; continue
+        m = re.match(r'\s*\*\* (\d+) of (\d+) failed(?: \((.*)\))?', l)
+        if m:
+            res['failed'] = int(m.group(1)); res['checks'] = int(m.group(2))
+            um = re.search(r'(\d+) unreachable', m.group(3) or '')
+            if um: res['unreachable'] = int(um.group(1))
+        if l.startswith('VERIFICATION:- SUCCESSFUL'): res['status'] = 'ok'
+        elif l.startswith('VERIFICATION:- FAILED'): res['status'] = 'fail'
+        m = re.match(r'Verification Time: ([0-9.]+)s', l)
+        if m: res['time_s'] = float(m.group(1))
+        if l.startswith('Concrete playback unit test for'):
+            vals = []
+            j = i + 1
+            while j < len(lines) and not lines[j].startswith('INFO:'):
+                vm = re.match(r'\s*vec!\[([0-9, ]*)\],?\s*$', lines[j])
+                if vm and 'concrete_vals' not in lines[j]:
+                    vals.append([int(x) for x in vm.group(1).split(',') if x.strip()])
+                j += 1
+            if res['playback'] is None: res['playback'] = vals
+        i += 1
+    # de-duplicate failed checks
+    seen = set(); fc = []
+    for x in res['failed_checks']:
+        if x not in seen: seen.add(x); fc.append(x)
+    res['failed_checks'] = fc
+    return res
+
+def _one(args):
+    crate_dir, target, h, module, feats, timeout, playback, extra = args
+    cmd = ['cargo', 'kani', '--target-dir', target, '--harness', '%s::%s' % (module, h), '--exact']
+    if feats: cmd += ['--features', ','.join(feats)]
+    if playback: cmd += ['-Z', 'concrete-playback', '--concrete-playback=print']
+    cmd += list(extra)
+    t0 = time.time()
+    try:
+        p = subprocess.run(cmd, cwd=crate_dir, capture_output=True, text=True, env=_env(), timeout=timeout)
+        out = p.stdout + '\n' + p.stderr
+        r = parse_regular(out)
+        if r['status'] == 'unknown':
+            r['error'] = '\n'.join(l for l in out.splitlines() if not FILTER.search(l))[-1500:]
+    except subprocess.TimeoutExpired:
+        r = dict(status='timeout', failed_checks=[], checks=0, failed=0, covers={}, playback=None, time_s=None)
+    r['wall_s'] = time.time() - t0
+    r['cmd'] = ' '.join(cmd)
+    return h, r
+
+def run_pool(crate_dir, harnesses, features=(), jobs=16, timeout=900, playback=False, extra=(), module='proofs'):
+    from concurrent.futures import ThreadPoolExecutor
+    target = os.path.join(WORK, 'kani-target', os.path.basename(crate_dir) + ('-' + '-'.join(features) if features else ''))
+    t0 = time.time()
+    # build once (codegen only) so that the parallel invocations find everything compiled
+    cmd = ['cargo', 'kani', '--target-dir', target, '--only-codegen']
+    if features: cmd += ['--features', ','.join(features)]
+    cmd += list(extra)
+    p = subprocess.run(cmd, cwd=crate_dir, capture_output=True, text=True, env=_env())
+    if p.returncode != 0:
+        out = p.stdout + '\n' + p.stderr
+        return dict(cmd=' '.join(cmd), results={}, wall_s=time.time() - t0, rc=p.returncode, timed_out=False,
+                    build_error='\n'.join(l for l in out.splitlines() if not FILTER.search(l))[-4000:])
+    results = {}
+    with ThreadPoolExecutor(max_workers=jobs) as ex:
+        for h, r in ex.map(_one, [(crate_dir, target, h, module, features, timeout, playback, extra) for h in harnesses]):
+            results[h] = r
+    return dict(cmd='cargo kani --target-dir %s --harness %s::<name> --exact%s  (x%d, %d parallel)' % (target, module, (' --features ' + ','.join(features)) if features else '', len(harnesses), jobs),
+                results=results, wall_s=time.time() - t0, rc=0, timed_out=any(r['status'] == 'timeout' for r in results.values()), build_error=None)
